@@ -13,6 +13,20 @@ CHECKS = {
         note='Trusted: z3, the symnp stand-in for numpy.ma (validated per explored path against real numpy 1.26), floats modelled as reals; bounds in evidence.',
         ref='DESIGN.md §2 C04'),
 }
+CHECKS['C03'] = dict(
+    technique='symbolic execution of every data command on z3-term masked arrays; mask = union-of-input-masks obligation and payload non-interference by self-composition, decided by z3',
+    text='Bounded symbolic model checking of all data commands of basic.py/fuzzy.py: per cell "missing <=> missing in an input or operation undefined" and '
+         '"result is a masked array" are proved on every feasible path, and non-interference of the values hidden under missing cells is proved by running the command twice '
+         'in one path on inputs that differ only in their hidden payloads (relational query).',
+    note='Trusted: z3, symnp (validated per path against real numpy), reals for floats. Mask creation by the CSV/NetCDF readers is covered by C17/C18.',
+    ref='DESIGN.md §2 C03')
+CHECKS['C06'] = dict(
+    technique='symbolic execution of the real fuzzy operators vs independently phrased reference terms; equality and algebraic laws as z3 validity queries with case-splitting on if-then-else conditions',
+    text='Bounded symbolic model checking: each operator result is proved equal, cell by cell, to the EEMS definition (max/min/neg/mean/weighted mean/mean of k extreme/XOr formula, clamped) '
+         'for every k, NumberToConsider and symbolic weight vector within the bound; input-order invariance (adjacent transpositions), Not involution, De Morgan, And<=Union<=Or and the '
+         'SelectedUnion k=1/k=all coincidences are proved as relational queries over several real command executions in one path.',
+    note='Trusted: z3 (nonlinear real arithmetic for XOr), symnp validated per path, reference terms in mpv/oracle.py; exact real arithmetic, not IEEE rounding.',
+    ref='DESIGN.md §2 C06')
 NOT_YET = {}
 ALL = ['C%02d' % i for i in range(1, 21)]
 
